@@ -173,7 +173,7 @@ def one_mdp_eval(case):
     from msdm.core.mdp.policy import Policy     # TabularPolicy overrides evaluate_on with the exact evaluator
     mdp = build_mdp(case["mdp"])
     pol = mk_policy(case, mdp)
-    guard = guard_absorbing(mdp, int(case.get("step_guard", 400)) * int(case["n_sims"]))
+    guard = guard_absorbing(mdp, int(case.get("step_guard_total", 400)))
     rng, g = Scripted(case["stream"], "rng"), Scripted(case["gstream"], "global")
     recs = []
     orig = pol.run_on
